@@ -1,7 +1,7 @@
 (** C05 - malformed input is rejected, never silently repaired (PARTIAL: lexical clauses and separator checking proved;
     the token-level "no junk" theorem (C) for the whole grammar is carried by the correspondence against an independent
     recogniser). *)
-From EE Require Import Chars OpTable Decimal Token Lexer Ast Parser Api Utf8 LexerSpec.
+From EE Require Import Chars OpTable Decimal Token Lexer Ast Parser Api Utf8 LexerSpec LexerTiling ParserTotal ParserLexErr ParserFuel.
 Open Scope N_scope.
 
 (* an unterminated string is a lexical error, whatever follows the opening quote *)
@@ -36,6 +36,18 @@ Proof.
   rewrite slice_at_seg with (mid := c :: w); [rewrite Hn; reflexivity | cbn; lia | cbn [blen]; lia].
 Qed.
 Print Assumptions C05_malformed_number.
+
+(* a lexical error anywhere in the input makes the whole parse an error: it is never swallowed, skipped or repaired -
+   for every operator table and every string *)
+Theorem C05_lexical_error_rejected : forall tbl s toks, lex tbl s = (toks, TmErr) -> api_parse tbl s = Err.
+Proof.
+  intros tbl s toks H. unfold api_parse. rewrite H.
+  pose proof (lex_error_rejected tbl TmErr ltac:(discriminate) (map tk toks)) as NotOk.
+  pose proof (parse_tokens_np tbl TmErr ltac:(discriminate) (map tk toks)) as NoPanic.
+  pose proof (parse_tokens_terminates tbl TmErr ltac:(discriminate) (map tk toks)) as NoFuel.
+  destruct (parse_tokens tbl TmErr (map tk toks)) as [t| | |]; [exfalso; eapply NotOk; reflexivity | reflexivity | contradiction | contradiction].
+Qed.
+Print Assumptions C05_lexical_error_rejected.
 
 (* separators are checked, not assumed: expect() succeeds only on exactly the expected delimiter / operator / comma *)
 Theorem C05_expect_exact : forall tm ts s r, expect tm ts s = Ok r ->
